@@ -14,6 +14,7 @@ CONSTANTS
  InlineData = TRUE
  Conc = 64
  Probes = FALSE
+ Exts = {FALSE}
 INIT Init
 NEXT Next
 VIEW View
